@@ -15,12 +15,13 @@ editing operation is addressed by the path of the edited node from the root; it 
 *local* step on that node followed by the code's upward patching of the ancestors' caches
 (`Loop._invalidate_duration`: `cache += inc·rep` on the way up, or reset).
 
-The model is of the code with the repairs `fixes/PF-05.diff` (renumber after `_reverse_children`),
-`fixes/PF-06.diff` (`roll_constant_waveforms` resets the node's own cache and only rolls waveforms
-that are a whole number of quanta long), `fixes/PF-12.diff` (`Node.__setitem__` renumbers exactly
-the assigned positions of an extended slice; a negative integer index is stored normalised) and
-`fixes/PF-C09-1.diff` (the `repetition_count` / `repetition_definition` setters invalidate the
-ancestors' cached durations) applied.
+The model is of /repo at 8e4f3a6 — which already contains the repairs of PF-03 (measurements mirrored
+about the body duration), PF-05 (a54cf25: `_reverse_children` renumbers), PF-06 (9776c49:
+`roll_constant_waveforms` resets the node's own cache and only rolls waveforms that are a whole number
+of quanta long), PF-C06-1/2 (`unroll_children` rejects leaves, `split_one_child` normalises a negative
+index) — with `fixes/PF-12.diff` (`Node.__setitem__` renumbers exactly the assigned positions of an
+extended slice; a negative integer index is stored normalised) and `fixes/PF-C09-1.diff` (the
+`repetition_count` / `repetition_definition` setters invalidate the ancestors' cached durations) applied.
 -/
 namespace QP.C09
 
@@ -360,6 +361,7 @@ def unrollLoc (k : Nat) (next : Nat) (t : T) : Loc :=
 
 /-- `node.unroll_children()` -/
 def unrollChildrenLoc (next : Nat) (t : T) : Loc :=
+  if t.isLeaf then errLoc t .runtimeError next else
   let cp := copyMany (some t.info.uid) t.kids t.info.rep.toNat next
   match sliceAssign t.info.uid t.kids none none none cp.1 with
   | .error e => errLoc t e next
@@ -417,7 +419,7 @@ def splitLoc (idx : Option Int) (next : Nat) (t : T) : Loc :=
       if j < 0 ∨ j ≥ len then .error .indexError else
       match t.kids[j.toNat]? with
       | none => .error .indexError
-      | some c => if c.info.rep < 2 then .error .valueError else .ok ci
+      | some c => if c.info.rep < 2 then .error .valueError else .ok j     -- a negative index is normalised
     | none =>
       match splitDefault t.kids with
       | some j => .ok (j : Int)
@@ -439,11 +441,11 @@ def splitLoc (idx : Option Int) (next : Nat) (t : T) : Loc :=
 /-- `Waveform.reversed()` -/
 def Wf.reversed (w : Wf) : Wf := if w.const then w else { w with rev := !w.rev }
 
-/-- `if self._measurements: duration = self.duration; …` -/
+/-- `if self._measurements: duration = self.body_duration; …` -/
 def revMeas (t : T) : T × Bool :=
   if t.info.meas.isEmpty then (t, true) else
   let f := fillV t
-  let d := f.2 * (t.info.rep : Rat)
+  let d := f.2                 -- the body duration: measurements are repeated with the body
   (f.1.upd (fun i => { i with meas := i.meas.map (fun m => { m with start := d - (m.start + m.len) }) }), true)
 
 mutual
